@@ -112,12 +112,6 @@ impl<Wr: Write> XmlSerializer<Wr> {
         write_qual_name(&mut self.writer, name)
     }
 
-    #[inline(always)]
-    fn qual_attr_name(&mut self, name: &QualName) -> io::Result<()> {
-        self.find_or_insert_ns(name);
-        write_qual_name(&mut self.writer, name)
-    }
-
     fn find_uri(&self, name: &QualName) -> bool {
         let mut found = false;
         for stack in self.namespace_stack.0.iter().rev() {
@@ -147,6 +141,16 @@ impl<Wr: Write> Serializer for XmlSerializer<Wr> {
     {
         self.namespace_stack.push(NamespaceMap::empty());
 
+        // Every prefix used by one of the attributes has to be declared on this element
+        // unless an enclosing element already did: find them before the declarations
+        // are written.  Attributes without a prefix are in no namespace.
+        let attrs: Vec<AttrRef<'a>> = attrs.collect();
+        for (attr_name, _) in attrs.iter() {
+            if attr_name.prefix.is_some() {
+                self.find_or_insert_ns(attr_name);
+            }
+        }
+
         self.writer.write_all(b"<")?;
         self.qual_name(&name)?;
         if let Some(current_namespace) = self.namespace_stack.0.last() {
@@ -169,7 +173,7 @@ impl<Wr: Write> Serializer for XmlSerializer<Wr> {
         }
         for (name, value) in attrs {
             self.writer.write_all(b" ")?;
-            self.qual_attr_name(name)?;
+            write_qual_name(&mut self.writer, name)?;
             self.writer.write_all(b"=\"")?;
             write_to_buf_escaped(&mut self.writer, value, true)?;
             self.writer.write_all(b"\"")?;
